@@ -270,12 +270,12 @@ package zygo
 //@ ensures fresh(r0)
 
 //@ func (*Zlisp).Duplicate
-//@ requires wfs(env.linearstack) && env.linearstack.tos >= 0
+//@ requires typeinv[Stack] wfs(env.linearstack)
 //@ C19 ensures shared: fresh(r0) && r0.symtable == old(env.symtable) && r0.revsymtable == old(env.revsymtable) && r0.nextsymbol == old(env.nextsymbol)
 //@ C19 ensures untouched: env.symtable == old(env.symtable) && env.revsymtable == old(env.revsymtable) && env.nextsymbol == old(env.nextsymbol)
 
 //@ func (*Zlisp).Clone
-//@ requires wfs(env.linearstack) && env.linearstack.tos >= 0 && wfs(env.datastack) && wfs(env.addrstack) && (env.loopstack != nil ==> wfs(env.loopstack))
+//@ requires typeinv[Stack] wfs(env.linearstack) && wfs(env.datastack) && wfs(env.addrstack) && (env.loopstack != nil ==> wfs(env.loopstack))
 //@ C19 ensures shared: fresh(r0) && r0.symtable == old(env.symtable) && r0.revsymtable == old(env.revsymtable) && r0.nextsymbol == old(env.nextsymbol)
 //@ C19 ensures untouched: env.symtable == old(env.symtable) && env.revsymtable == old(env.revsymtable) && env.nextsymbol == old(env.nextsymbol)
 
@@ -602,6 +602,9 @@ package zygo
 //@ clauseall \(\*Generator\)\.(Generate[A-Za-z]*|generateSyntaxQuote[A-Za-z]*) :: assume preserves Generator.funcname
 //@ clauseall \(\*Generator\)\.(Generate|GenerateCall|GenerateCallBySymbol|GenerateArray|GenerateAll) :: assume C09 ensures keeps-own-tail: r0 == nil ==> gen.Tail == old(gen.Tail)
 
+//@ func (*Generator).LookupKnownFunction
+//@ assume preserves Generator.Tail
+
 //@ func (*Generator).Reset
 //@ C09 ensures !gen.Tail
 //@ C09 preserves Generator.Tail except gen
@@ -611,7 +614,7 @@ package zygo
 //@ C09 preserves Generator.Tail
 
 //@ func NewGenerator
-//@ C09 ensures fresh(r0) && !r0.Tail
+//@ C09 ensures fresh(r0) && !r0.Tail && len(r0.instructions) == 0 && r0.scopes == 0
 //@ C09 preserves Generator.Tail
 
 //@ func (*Generator).AddInstruction
@@ -630,14 +633,28 @@ package zygo
 //@ C09 assert letseq-binding-not-tail @before call Generate[0]: !gen.Tail
 //@ C09 assert let-binding-not-tail @before call Generate[1]: !gen.Tail
 //@ C09 assert body-inherits @before call GenerateBegin[0]: gen.Tail == old(gen.Tail)
+//@ C09 loop 1 invariant !gen.Tail
+//@ C09 loop 2 invariant !gen.Tail
+//@ C09 loop 3 invariant !gen.Tail
 
 // cond: predicates are never in tail position; every arm and the default are
 //@ func (*Generator).GenerateCond
 //@ C09 assert default-inherits @before call Generate[0]: arg0.Tail == old(gen.Tail)
 //@ C09 assert predicate-not-tail @before call Generate[1]: !arg0.Tail
 //@ C09 assert arm-inherits @before call Generate[2]: arg0.Tail == old(gen.Tail)
+//@ C09 loop 0 invariant gen.Tail == old(gen.Tail) && subgen != gen
 
 // and / or: only the last operand is in tail position
 //@ func (*Generator).GenerateShortCircuit
 //@ C09 assert last-inherits @before call Generate[0]: arg0.Tail == old(gen.Tail)
 //@ C09 assert earlier-not-tail @before call Generate[1]: !arg0.Tail
+//@ C09 loop 0 invariant gen.Tail == old(gen.Tail)
+
+// the tail self-call: arguments are compiled with the flag off, the jump goes to
+// instruction 1 (the parameter-binding prologue, after the function-scope
+// instruction at 0), and the flag is put back
+//@ func (*Generator).GenerateCallBySymbol
+//@ C09 assert tail-args-not-tail @before call GenerateCallArgsForFunction[0]: !gen.Tail
+//@ C09 assert jump-to-prologue @before call AddInstruction[*]: typeis(arg1, GotoInstr) ==> arg1.(GotoInstr).location == 1
+//@ func buildSexpFun
+//@ C09 assert function-scope-first @after call AddInstruction[0]: len(arg0.instructions) == 1
